@@ -173,7 +173,11 @@ func init() {
 // current state, not a mixture with the files of the earlier Save.
 func VerifC11Resave() {
 	h := newHist(1000)
-	h.richState()
+	if verifParam("rich", 1) == 2 {
+		h.lateState()
+	} else {
+		h.richState()
+	}
 	if err := h.repo.Save(h.ctx); err != nil {
 		verifAssert(false, "save-returns-error")
 		return
@@ -182,8 +186,10 @@ func VerifC11Resave() {
 	for s := 0; s < steps; s++ {
 		switch pick(fmt.Sprintf("op%d", s), 3) {
 		case 0:
+			// equally heavy tips are allowed here: the same repository is compared before Save
+			// and after Load, and Load keeps the branch order that decides a tie
 			hd, p := h.newHeader()
-			h.assumeNoTie(h.record(hd, p))
+			h.record(hd, p)
 			h.repo.ProcessHeader(h.ctx, hd)
 		case 1:
 			h.repo.Clean(h.ctx)
